@@ -73,7 +73,24 @@ META = {
         explanation="Builders and tables: proved for all roots. Parser: bounded stand-in (8.9k strings, exhaustive over root x "
                     "shorthand x alias x bass x polychord partner classes as stated in the battery rule).",
     ),
+    "C05": dict(
+        claimed=True, level="proof",
+        technique="contract-based deductive verification (symbolic tonic and symbolic octave count; periodic-list values); recognition as bounded run-time contract",
+        level_text="ascending() of the seven modes, Diatonic (with an ARBITRARY set of semitone positions), WholeTone and Octatonic is "
+                   "proved for EVERY tonic name and EVERY octave count n >= 1: the result is one octave repeated n times plus the "
+                   "tonic, consecutive letters, and exactly the defining step pattern. The key-table scales (major, harmonic major, "
+                   "natural/harmonic/melodic minor, Bachian, minor Neapolitan) and Chromatic are proved for each of their 15 (30) "
+                   "tonics with symbolic n; melodic minor and minor Neapolitan descents against their own patterns. 'descending is "
+                   "the exact reverse list', 'degree k agrees with both lists' and 'len follows the list' are lemmas proved per class "
+                   "from those contracts. scales.determine is NOT proved (reflection + string sets): bounded stand-in against a "
+                   "brute-force specification.",
+        level_note=TB + " Known finding C05/chromatic-descending-spelling (literal reverse-list clause for Chromatic only). "
+                        "Assumed (bounded only): the contract of scales.determine. str.islower is modelled partially (False "
+                        "when the first character is an ASCII capital).",
+        explanation="Class clauses proved (unbounded in tonic spelling and octave count); recognition bounded (2.4k note sets "
+                    "incl. every scale's own set, its one-note-removed subsets and supersets).",
+    ),
 }
 
 _NOT_YET = "not yet brought under contract in this build step (see DESIGN.md §9 for the plan); nothing is claimed"
-NOT_APPLICABLE = dict(("C%02d" % i, _NOT_YET) for i in [5] + list(range(7, 21)))
+NOT_APPLICABLE = dict(("C%02d" % i, _NOT_YET) for i in range(7, 21))
